@@ -25,6 +25,9 @@ pub struct TableChecker {
     /// previous snapshot per (host, table index): (own id, buckets, time on the node's clock)
     prev: BTreeMap<(HostId, usize), (Id, Vec<(u8, Vec<(Id, SocketAddrV4, u64)>)>, u64)>,
     pub violation: Option<(String, String)>,
+    /// tables that were re-keyed: re-insertion under the new id does not keep the buckets in
+    /// least-recently-seen order, so afterwards the head need not be the oldest entry
+    rekeyed: BTreeSet<(HostId, usize)>,
     pub full_buckets_seen: u64,
     pub stale_replacements: u64,
     pub stale_removals: u64,
@@ -101,6 +104,7 @@ impl TableChecker {
         if let Some((pid, pb, ptime)) = self.prev.get(&(host, ti)).cloned() {
             if pid != t.id {
                 self.rekeys += 1;
+                self.rekeyed.insert((host, ti));
             } else {
                 let elapsed = now_local.saturating_sub(ptime);
                 let cur_ids: BTreeMap<Id, (SocketAddrV4, u64)> = cur.iter().flat_map(|(_, ns)| ns.iter().map(|n| (n.0, (n.1, n.2)))).collect();
@@ -122,7 +126,7 @@ impl TableChecker {
                         if ns.len() == 20 && gone.len() == 1 && newcomers == 1 {
                             self.stale_replacements += 1;
                             let oldest = ns.iter().map(|x| x.2).max().unwrap_or(0);
-                            if *idx != 0 || n.2 < oldest {
+                            if (*idx != 0 || n.2 < oldest) && !self.rekeyed.contains(&(host, ti)) {
                                 self.fail(
                                     "replaced-entry-not-least-recently-seen",
                                     format!("{name}: a full bucket {k} replaced its entry at position {idx} (last seen {:.1} min ago) although its least recently seen entry was last seen {:.1} min ago", n.2 as f64 / (60.0 * SEC as f64), oldest as f64 / (60.0 * SEC as f64)),
@@ -181,16 +185,53 @@ fn run(ctx: &RunCtx) -> Report {
     sim.set_snap_every(40);
     let public = rng.chance(1, 2);
     let checker: Rc<RefCell<TableChecker>> = Default::default();
+    // victim: a first node (adds find_node requesters), or a node bootstrapped into scripted peers
+    let first_node = rng.chance(2, 3);
+    // refresh rule (independent of the entry's own timestamp): when the step consumed a find_node request
+    // that makes the server (re-)add its sender, an entry with that id and address that is in the table
+    // after the step has just been seen - its age is zero
+    let refresh_checks: Rc<RefCell<u64>> = Default::default();
     {
         let c = checker.clone();
         let sim2 = sim.clone();
+        let rc = refresh_checks.clone();
+        let mut seen_consumed = 0u64;
         sim.set_observer(Box::new(move |h, _now, s| {
             let local = sim2.host_clock(h);
             c.borrow_mut().check(h, local, s);
+            let consumed = sim2.consumed(h);
+            if consumed == seen_consumed + 1 {
+                if let Some((src, bytes)) = sim2.last_consumed(h) {
+                    if let Some(k) = krpc::Krpc::parse(&bytes) {
+                        if k.query_name() == Some("find_node") && !k.ro {
+                            if let Some(x) = k.id() {
+                                let signed_capable = k.version.as_deref() == Some(&krpc::VERSION_RS6[..]);
+                                for (ti, t, applies) in [(0, &s.routing_table, first_node), (1, &s.signed_peers_routing_table, signed_capable)] {
+                                    if !applies {
+                                        continue;
+                                    }
+                                    for (_, b) in &t.buckets {
+                                        for n in b {
+                                            if n.id == x && n.address == src {
+                                                *rc.borrow_mut() += 1;
+                                                if n.age_ns > SEC {
+                                                    c.borrow_mut().fail(
+                                                        "re-added-node-not-refreshed",
+                                                        format!("{}: the server just handled a find_node request of {} @ {src} and holds that entry, but its last-seen age is {:.1} min (a re-added known node must be refreshed)", if ti == 0 { "routing table" } else { "signed-peers routing table" }, hex8(&x), n.age_ns as f64 / (60.0 * SEC as f64)),
+                                                    );
+                                                }
+                                            }
+                                        }
+                                    }
+                                }
+                            }
+                        }
+                    }
+                }
+            }
+            seen_consumed = consumed;
         }));
     }
-    // victim: a first node (adds find_node requesters), or a node bootstrapped into scripted peers
-    let first_node = rng.chance(2, 3);
     let victim_ip = if public { pub_ip(&mut rng) } else { priv_ip(1) };
     let rawnet = RawNet::new();
     let n_script = rng.usize(3, 40);
@@ -339,6 +380,7 @@ fn run(ctx: &RunCtx) -> Report {
         report.violate("table-invariant", key, detail.clone());
     }
     report.probe("same_ip_same_prefix_sibling_requests", sibling_events);
+    report.probe("refresh_rule_checks", *refresh_checks.borrow());
     report.probe("full_bucket_snapshots", c.full_buckets_seen.min(1_000_000));
     report.probe("stale_head_replacements", c.stale_replacements);
     report.probe("stale_removals", c.stale_removals);
